@@ -6,4 +6,5 @@ import GeoVerif.Ops.Plant
 import GeoVerif.Ops.Reservoir
 import GeoVerif.Ops.Pressure
 import GeoVerif.Ops.Hip
+import GeoVerif.Ops.Ramey
 /-! Everything the driver needs (import-free models + ops). -/
